@@ -11,6 +11,7 @@ CONSTANTS
   ModPorts = {1, 2, 3}
   ModOps <- AllBitOps
   BadMods = {"badhw"}
+  BadOps <- C_BadOps
   FragModes <- Both
   DropCount = {FALSE}
   MissLen = 128
